@@ -304,6 +304,9 @@ func createShimChannel(ctx context.Context, host, shimPath string, rewriteHost b
 		targetURL := *(r.URL)
 		targetURL.Scheme = "ws"
 		targetURL.Host = host
+		// An opaque URL (e.g. "x:y") has no host component when serialized, which
+		// would make the websocket dialer fall back to a default address.
+		targetURL.Opaque = ""
 		if originalHost := r.Host; rewriteHost && originalHost != "" {
 			r.Header.Set("Host", originalHost)
 		}
